@@ -185,6 +185,8 @@ pub const WORKLOADS: &[&str] = &[
     "bulk_merge_pairwise",
     "random_mix",
     "grow_shrink_grow",
+    "cross_thread_merge_few",
+    "cross_thread_merge_many",
 ];
 
 /// Runs one workload to `n` elements. Returns the treap's final stats for the evidence.
@@ -352,6 +354,47 @@ pub fn run_workload(name: &str, n: usize, seed: u64, rep: &mut Report) {
                 }
                 for i in 0..n / 2 {
                     grow!(if i % 2 == 0 { 0 } else { len }, i as u64);
+                }
+            }
+            "cross_thread_merge_few" | "cross_thread_merge_many" => {
+                // treaps built on different threads (each thread owns its treap while building it), then moved to this
+                // thread and concatenated: a lawful history of insertions and merges. If the threads' priority sources
+                // are correlated (e.g. identically seeded), the merged tree carries ties at every level
+                let k = if name.ends_with("few") { 16 } else { 256.min(n / 64).max(2) };
+                let per = (n / k).max(8);
+                let handles: Vec<_> = (0..k)
+                    .map(|t| {
+                        std::thread::Builder::new()
+                            .stack_size(64 << 20)
+                            .spawn(move || {
+                                let mut tr: Treap<KeyItem> = Treap::new();
+                                for i in 0..per {
+                                    // sorted appends on even threads, front insertion on odd ones
+                                    if t % 2 == 0 {
+                                        tr.insert_at(i, item((t * per + i) as u64));
+                                    } else {
+                                        tr.insert_at(0, item((t * per + i) as u64));
+                                    }
+                                }
+                                tr
+                            })
+                            .expect("spawn")
+                    })
+                    .collect();
+                for (j, h) in handles.into_iter().enumerate() {
+                    let part = match h.join() {
+                        Ok(p) => p,
+                        Err(_) => {
+                            cx.violation("panic", Json::obj().set("what", "a thread building its own treap panicked"));
+                            return;
+                        }
+                    };
+                    let old = std::mem::take(&mut t);
+                    t = if j % 3 == 2 { lib!(Treap::merge(part, old)) } else { lib!(Treap::merge(old, part)) };
+                    len += per;
+                    if !cx.staged(&t, len) {
+                        return;
+                    }
                 }
             }
             _ => panic!("unknown workload {}", name),
